@@ -1,4 +1,5 @@
 import Dia.Props.C02
+import Dia.Strict
 /-! # C03 - Decoding is faithful: accepted frames mean what their bytes say. Property theorems only.
 `Spec.encode` (Dia/Spec.lean) is the independent RFC 6733 reading; `applyMask _ (maskList _)` forgets exactly what
 the property allows to be normalised: AVP padding octets (`zero`) and the five reserved AVP flag bits (`flags`). -/
@@ -48,5 +49,54 @@ theorem C03_noise_irrelevant (cfg : Cfg) (dict : Lookup) (m : Msg) (body body' :
     (hbody' : applyMask body' (maskList m.avps) = encodeAvps (absList m.avps)) :
     decMsg cfg dict (m.hdrBytes ++ body) = decMsg cfg dict (m.hdrBytes ++ body') := by
   rw [C03_accepts cfg dict m body hg hh hty h24 hd hbl hbody, C03_accepts cfg dict m body' hg hh hty h24 hd hbl' hbody']
+
+/-- a decoder that is lenient for no type (the configuration probed from the code when finding F1 is absent) never
+returns a fixed-size value under a lying length: for it the hypothesis `NoLieList` of `C03_faithful` is vacuous -/
+theorem C03_strict_no_lie (cfg : Cfg) (dict : Lookup) (hs : ∀ t d, cfg.lenient t d = false) (bs : Bytes) (m : Msg)
+    (h : decMsg cfg dict bs = .ok m) : NoLieList m.avps :=
+  decMsg_strict cfg dict hs bs m h
+
+/-- **C03 at full strength for a strict decoder**: whenever it accepts a complete frame, the frame is the RFC encoding
+of what is returned, up to padding octets and reserved flag bits -/
+theorem C03_faithful_strict (cfg : Cfg) (dict : Lookup) (hs : ∀ t d, cfg.lenient t d = false) (bs : Bytes) (m : Msg)
+    (h : decMsg cfg dict bs = .ok m) (hlen : bs.length = m.length) :
+    m.Good ∧ m.enc = ⟨Spec.encode m.abs, none⟩ ∧ (Spec.encode m.abs).length = bs.length ∧
+    ∃ hb body, bs = hb ++ body ∧ hb.length = 20 ∧ body.length = (maskList m.avps).length ∧
+      Spec.encode m.abs = hb ++ applyMask body (maskList m.avps) :=
+  C03_faithful cfg dict bs m h hlen (C03_strict_no_lie cfg dict hs bs m h)
+
+/-- whatever is accepted, under any leniency, is typed by the dictionary at every nesting level (the value variant of
+every AVP is the one its exact (code, vendor) entry declares), nests within the limit, and carries a known command
+code and application id -/
+theorem C03_typed (cfg : Cfg) (dict : Lookup) (bs : Bytes) (m : Msg) (h : decMsg cfg dict bs = .ok m) :
+    TypedList dict m.avps ∧ depthList m.avps ≤ cfg.limit ∧ m.HeaderOk :=
+  let ⟨t1, t2, t3, t4⟩ := decMsg_typed cfg dict bs m h
+  ⟨t1, t2, ⟨t3, t4⟩⟩
+
+/-! ### finding F1: the full statement fails for the lenient configuration the code has today -/
+
+def lenientAll : Cfg := ⟨fun _ _ => true, 32⟩
+/-- the dictionary of the witness: AVP 415 (CC-Request-Number) is an Unsigned32 -/
+def dict415 : Lookup := fun c v => if c = 415 ∧ v = none then .unsigned32 else .unknown
+/-- 36 octets: a CCR whose only AVP, an Unsigned32, declares 16 octets instead of 12 -/
+def witnessF1 : Bytes :=
+  [0x01,0x00,0x00,0x24, 0x80,0x00,0x01,0x10, 0,0,0,4, 0,0,0,1, 0,0,0,2,
+   0,0,0x01,0x9f, 0x40,0,0,0x10, 0,0,0,7, 1,2,3,4]
+
+def decSummary (o : Out Msg) : Option (Nat × Nat × Nat) :=
+  match o with
+  | .ok m => some (m.length, m.enc.bytes.length, m.avps.length)
+  | _ => none
+
+/-- the lenient decoder accepts the witness, reports 36 octets about it, and re-encodes it to 32: the last four octets
+are silently dropped (replayed on the real code by the C03 check: known finding F1) -/
+theorem C03_lenient_witness :
+    witnessF1.length = 36 ∧ decSummary (decMsg lenientAll dict415 witnessF1) = some (36, 32, 1) := by
+  decide
+
+/-- while the strict reader refuses it -/
+theorem C03_strict_refuses_witness :
+    decSummary (decMsg ⟨fun _ _ => false, 32⟩ dict415 witnessF1) = none := by
+  decide
 
 end Dia
